@@ -1315,32 +1315,41 @@ func hasKind(fs []finding, k string) (finding, bool) {
 	return finding{}, false
 }
 
-// failsAll: the case shows oracle kind k in every one of n executions.
-func (ch *chassis) failsAll(c caseCfg, k string, n int, cl *classes) (finding, bool) {
+// failsAny: the case shows oracle kind k in at least one of n executions (which eligible peer a router picks
+// depends on Go map order, so a configuration with several eligible peers may fail only sometimes).
+// Returns how many of the executions failed.
+func (ch *chassis) failsAny(c caseCfg, k string, n int, stopAtFirst bool, cl *classes) (finding, int) {
 	var last finding
+	bad := 0
 	for i := 0; i < n; i++ {
 		atomic.AddInt64(&cl.minRuns, 1)
 		o, ok := ch.runRetry(c)
 		if !ok {
-			return last, false
+			continue
 		}
-		f, bad := hasKind(judge(c, o), k)
-		if !bad {
-			return last, false
+		if f, is := hasKind(judge(c, o), k); is {
+			last = f
+			bad++
+			if stopAtFirst {
+				return last, bad
+			}
 		}
-		last = f
 	}
-	return last, true
+	return last, bad
 }
 
+const minimiseTries = 8
+
+// minimise greedily shrinks a failing case (drop the header, drop peers, reset attributes to their defaults) while
+// the same oracle still fails; the third result tells whether the minimal case fails on every execution.
 func (ch *chassis) minimise(c caseCfg, k string, cl *classes) (caseCfg, finding, bool) {
 	cur := c.canon()
-	f, ok := ch.failsAll(cur, k, 2, cl)
-	if !ok {
+	f, n := ch.failsAny(cur, k, minimiseTries, true, cl)
+	if n == 0 {
 		return cur, f, false
 	}
 	try := func(cand caseCfg) bool {
-		if g, ok := ch.failsAll(cand, k, 2, cl); ok {
+		if g, n := ch.failsAny(cand, k, minimiseTries, true, cl); n > 0 {
 			cur, f = cand.canon(), g
 			return true
 		}
@@ -1363,6 +1372,9 @@ func (ch *chassis) minimise(c caseCfg, k string, cl *classes) (caseCfg, finding,
 		for i := len(cur.Nodes) - 1; i >= 1; i-- {
 			if cur.Hdr == hPeer && len(cur.Nodes) == 2 {
 				break
+			}
+			if i >= len(cur.Nodes) {
+				continue
 			}
 			cand := cur.clone()
 			cand.Nodes = append(cand.Nodes[:i], cand.Nodes[i+1:]...)
@@ -1397,9 +1409,6 @@ func (ch *chassis) minimise(c caseCfg, k string, cl *classes) (caseCfg, finding,
 				alts = append(alts, a)
 			}
 			for _, a := range alts {
-				if i >= len(cur.Nodes) {
-					break
-				}
 				cand := cur.clone()
 				cand.Nodes[i] = a
 				if try(cand) {
@@ -1409,10 +1418,11 @@ func (ch *chassis) minimise(c caseCfg, k string, cl *classes) (caseCfg, finding,
 			}
 		}
 	}
-	if g, ok := ch.failsAll(cur, k, 5, cl); ok {
-		return cur, g, true
+	g, bad := ch.failsAny(cur, k, 10, false, cl)
+	if bad == 0 {
+		return cur, f, false
 	}
-	return cur, f, false
+	return cur, g, bad == 10
 }
 
 func (cl *classes) report(ch *chassis, c caseCfg, f finding) {
@@ -1428,7 +1438,9 @@ func (cl *classes) report(ch *chassis, c caseCfg, f finding) {
 	m, g, stable := ch.minimise(c, f.Kind, cl)
 	sig := f.Kind + "|" + m.String()
 	if !stable {
-		sig += "|not-reproducible-5x"
+		sig += "|intermittent" // depends on which of several eligible peers the router picks
+	}
+	if g.Desc == "" {
 		g = f
 	}
 	cl.mu.Lock()
@@ -1441,10 +1453,8 @@ func (cl *classes) report(ch *chassis, c caseCfg, f finding) {
 		cl.replay[sig] = map[string]any{"minimal_case": m.String(), "nodes": describe(m), "first_raw_case": c.String(), "oracle": f.Kind,
 			"request_kind": kinds[m.Kind].Name, "client_header": hdrName[m.Hdr],
 			"how": "./check C30 --replay <this file> re-executes minimal_case 5 times on a fresh in-process cluster and prints what every node did"}
-		if stable {
-			cl.minimal[f.Kind] = append(cl.minimal[f.Kind], m)
-			cl.sig[f.Kind+"#"+m.key()] = sig
-		}
+		cl.minimal[f.Kind] = append(cl.minimal[f.Kind], m)
+		cl.sig[f.Kind+"#"+m.key()] = sig
 	}
 	cl.count[sig]++
 }
@@ -1636,7 +1646,8 @@ func main() {
 	}
 
 	cl := &classes{minimal: map[string][]caseCfg{}, sig: map[string]string{}, count: map[string]int{}, desc: map[string]string{}, replay: map[string]any{}}
-	samples := ev.NewSamples(8)
+	var sampleMu sync.Mutex
+	sampleBy := map[string]any{} // one executed case per distinct outcome
 	var next, evals, nontriv, indeterminate, forwarded, rejected508 atomic.Int64
 	var timeUp atomic.Bool
 	outcomes := make([]map[string]int64, nw)
@@ -1700,13 +1711,18 @@ func main() {
 							if kinds[k].IsWrite {
 								wq = "write"
 							}
-							outcomes[w][fmt.Sprintf("%s status=%d forwards=%d served-by=%s", wq, o.Status, o.Forwards, by)]++
+							okey := fmt.Sprintf("%s status=%d forwards=%d served-by=%s", wq, o.Status, o.Forwards, by)
+							outcomes[w][okey]++
+							if outcomes[w][okey] == 1 {
+								sampleMu.Lock()
+								if _, have := sampleBy[okey]; !have {
+									sampleBy[okey] = map[string]any{"outcome": okey, "case": c.String(), "status": o.Status, "forwards": o.Forwards, "processed_per_node": o.Proc}
+								}
+								sampleMu.Unlock()
+							}
 							fs := judge(c, o)
 							for _, f := range fs {
 								cl.report(ch, c, f)
-							}
-							if len(fs) == 0 && o.Forwards == 1 && c.Hdr != hAbsent {
-								samples.Add(map[string]any{"case": c.String(), "status": o.Status, "forwards": o.Forwards, "processed_per_node": o.Proc})
 							}
 						}
 					}
@@ -1747,6 +1763,11 @@ func main() {
 			merged[k] += v
 		}
 	}
+	okeys := make([]string, 0, len(merged))
+	for k := range merged {
+		okeys = append(okeys, k)
+	}
+	sort.Strings(okeys)
 	var spaceRows []map[string]any
 	for si, s := range sp {
 		var e, nt int64
@@ -1786,9 +1807,11 @@ func main() {
 	run.Coverage["reference_validated"] = fmt.Sprintf("%d accepted writes found, after flush, in the Parquet store of exactly the node whose WAL hook saw them", storeRows)
 	run.Coverage["minimisation_executions"] = atomic.LoadInt64(&cl.minRuns)
 	run.Coverage["workers"] = nw
-	sl := samples.List()
-	if len(sl) == 0 {
-		sl = append(sl, map[string]any{"case": "none with a client header that was forwarded"})
+	var sl []any
+	for _, k := range okeys {
+		if v, ok := sampleBy[k]; ok {
+			sl = append(sl, v)
+		}
 	}
 	run.Coverage["samples"] = sl
 	run.Assume("capability table used by the oracle (standalone/writer: ingest+query; reader: query only; compactor: neither) is the documented contract of internal/cluster/role.go, written out in the harness")
@@ -1815,11 +1838,6 @@ func main() {
 	for _, r := range spaceRows {
 		fmt.Printf("space %-14v N=%v configurations=%v evaluated=%v nontrivial=%v\n", r["space"], r["nodes"], r["configurations"], r["evaluated"], r["nontrivial"])
 	}
-	okeys := make([]string, 0, len(merged))
-	for k := range merged {
-		okeys = append(okeys, k)
-	}
-	sort.Strings(okeys)
 	for _, k := range okeys {
 		fmt.Printf("  outcome %-55s %d\n", k, merged[k])
 	}
